@@ -19,7 +19,9 @@ RULE = ('Hypothesis-generated schedules: 1-5 coroutine scripts (finite or cyclic
         'included). Oracle: reference model with one absolute deadline per coroutine in exact rational '
         'arithmetic; per frame the executed (coroutine, step) multiset must equal the model\'s and coroutines '
         'that stay runnable keep their relative order. Thorough tier additionally ENUMERATES two finite '
-        'sub-spaces completely (see exhaustive_subspaces). Non-trivial = >= 2 coroutines whose waits overlap in '
+        'sub-spaces completely (see exhaustive_subspaces). '
+        'In ~15% of the cases the coroutines are multiplied up to 64-150. '
+        'Non-trivial = >= 2 coroutines whose waits overlap in '
         'time with different deadlines and at least one frame in which the wait queue empties while another '
         'coroutine waits again later. Distinct = sha1 of canonical JSON (enumerated cases are distinct by '
         'construction and counted separately in enumerated_nontrivial, added to distinct_nontrivial).')
